@@ -1,6 +1,5 @@
 /-
-Reason bounds (continued from `Lemmas/RangeReasons2.lean`): Get, the cryptographic operations, the attribute
-operations, and `processOperation_reason`.
+Reason bounds (continued from `Lemmas/RangeReasons2.lean`): Get, the cryptographic operations.
 -/
 import KmipModel.Lemmas.RangeReasons2
 namespace Kmip.Encode
@@ -45,75 +44,5 @@ theorem rb_opSignatureVerify {c : Ctx} {e : Engine} {u : Option String} {p : Boo
 theorem rb_opMac {c : Ctx} {e : Engine} {u : Option String} {a : Option Nat} {d : Bool} {cr : Crypto}
     (hc : cryptoReq cr = true) : RB (opMac c e u a d cr) := by unfold opMac; rb
 
-/-! ### attribute operations -/
-
-theorem rb_setByIndex {o : Obj} {n : String} {v : AVal} {i : Nat} : RB (setByIndex o n v i) := by unfold setByIndex; rb
-theorem rb_popAt {α : Type} {l : List α} {i : Int} : RB (popAt l i) := by unfold popAt; rb
-macro_rules | `(tactic| rb_lemmas) => `(tactic| exact rb_setByIndex)
-macro_rules | `(tactic| rb_lemmas) => `(tactic| exact rb_popAt)
-theorem rb_delGeneric {α : Type} [BEq α] {l : List α} {v : Option α} {t : Bool} {i : Option Int} :
-    RB (delGeneric l v t i) := by unfold delGeneric; rb
-macro_rules | `(tactic| rb_lemmas) => `(tactic| exact rb_delGeneric)
-theorem rb_delAttr {c : Ctx} {o : Obj} {n : String} {i : Option Int} {v : Option AVal} : RB (delAttr c o n i v) := by
-  unfold delAttr; rb
-macro_rules | `(tactic| rb_lemmas) => `(tactic| exact rb_delAttr)
-theorem rb_opSetAttribute {c : Ctx} {e : Engine} {u : Option String} {a : TAttr} : RB (opSetAttribute c e u a) := by
-  unfold opSetAttribute; rb
-theorem rb_gotLength {g : Option Got} : RB (gotLength g) := by unfold gotLength; rb
-theorem rb_nthAttr {as : List TAttr} {i : Nat} {s : String} : RB (nthAttr as i s) := by unfold nthAttr; rb
-theorem rb_checkCurrent {o : Obj} {n : String} {cu : Option TAttr} : RB (checkCurrent o n cu) := by
-  unfold checkCurrent; rb
-  all_goals (rename_i heq; first | exact RB.of_error rb_getAttr heq | exact RB.of_error rb_attrIndex heq)
-theorem rb_currentIndex {o : Obj} {n : String} {cu : Option TAttr} : RB (currentIndex o n cu) := by
-  unfold currentIndex; rb
-  all_goals (rename_i heq; first | exact RB.of_error rb_getAttr heq | exact RB.of_error rb_attrIndex heq)
-macro_rules | `(tactic| rb_lemmas) => `(tactic| exact rb_gotLength)
-macro_rules | `(tactic| rb_lemmas) => `(tactic| exact rb_nthAttr)
-macro_rules | `(tactic| rb_lemmas) => `(tactic| exact rb_checkCurrent)
-macro_rules | `(tactic| rb_lemmas) => `(tactic| exact rb_currentIndex)
-theorem rb_modifyCore {c : Ctx} {v : Nat} {o : Obj} {a cu nw : Option TAttr} : RB (modifyCore c v o a cu nw) := by
-  unfold modifyCore; rb
-macro_rules | `(tactic| rb_lemmas) => `(tactic| exact rb_modifyCore)
-theorem rb_opModifyAttribute {c : Ctx} {e : Engine} {u : Option String} {a cu nw : Option TAttr} :
-    RB (opModifyAttribute c e u a cu nw) := by unfold opModifyAttribute; rb
-theorem rb_deletedAttr {ex : List TAttr} {i : Int} : RB (deletedAttr ex i) := by unfold deletedAttr; rb
-macro_rules | `(tactic| rb_lemmas) => `(tactic| exact rb_deletedAttr)
-theorem rb_deleteCore {c : Ctx} {v : Nat} {o : Obj} {n : Option String} {i : Option Int} {cu : Option TAttr}
-    {r : Option String} : RB (deleteCore c v o n i cu r) := by unfold deleteCore; rb
-macro_rules | `(tactic| rb_lemmas) => `(tactic| exact rb_deleteCore)
-theorem rb_opDeleteAttribute {c : Ctx} {e : Engine} {u : Option String} {n : Option String} {i : Option Int}
-    {cu : Option TAttr} {r : Option String} : RB (opDeleteAttribute c e u n i cu r) := by unfold opDeleteAttribute; rb
-
-/-- **Every KMIP error of an item carries a reason that fits an Enumeration.** -/
-theorem processOperation_reason {c : Ctx} {e : Engine} {it : Kmip.Item} (hc : cryptoReq it.crypto = true) :
-    RB (processOperation c e it) := by
-  unfold processOperation
-  split
-  · exact RB.kerr _ _ (by decide)
-  · split
-    · exact RB.kerr _ _ (by decide)
-    · split
-      · exact rb_opCreate hc
-      · exact rb_opCreateKeyPair hc
-      · exact rb_opRegister
-      · exact rb_opDeriveKey hc
-      · exact rb_opLocate
-      · exact rb_opGet hc
-      · exact rb_opGetAttributes
-      · exact rb_opGetAttributeList
-      · exact rb_opActivate
-      · exact rb_opRevoke
-      · exact rb_opDestroy
-      · exact rb_opQuery
-      · exact rb_opDiscoverVersions
-      · exact rb_opEncrypt hc
-      · exact rb_opDecrypt hc
-      · exact rb_opSign hc
-      · exact rb_opSignatureVerify hc
-      · exact rb_opMac hc
-      · exact rb_opSetAttribute
-      · exact rb_opModifyAttribute
-      · exact rb_opDeleteAttribute
-      · exact RB.kerr _ _ (by decide)
 
 end Kmip.Encode
